@@ -264,11 +264,54 @@ where F: BooleanFunction, for<'id> F::Manager<'id>: Manager + oxidd::HasWorkers,
     println!("{{\"found\":false,\"checked\":{}}}", checked);
 }
 
+/// group "eval": `eval` against an independent node-by-node walk (cofactors + level_to_var), under every variable order
+fn run_eval<F, MR>(kind: &str, mk: impl Fn() -> (MR, Vec<F>))
+where F: BooleanFunction, for<'id> F::Manager<'id>: Manager + oxidd::HasWorkers, MR: ManagerRef, for<'id> F: Function<ManagerRef = MR, Manager<'id> = MR::Manager<'id>>,
+      for<'id> <F::Manager<'id> as Manager>::InnerNode: oxidd::HasLevel {
+    use oxidd::HasLevel;
+    let perms: [[u32; 3]; 6] = [[0, 1, 2], [0, 2, 1], [1, 0, 2], [1, 2, 0], [2, 0, 1], [2, 1, 0]];
+    let mut checked = 0u64;
+    for p in perms {
+        let (mref, vars) = mk();
+        mref.with_manager_exclusive(|m| oxidd_reorder::set_var_order(m, &p));
+        let all: Vec<F> = (0..=FULL).map(|t| build(&vars, t)).collect();
+        for t in 0..=FULL {
+            for a in 0..NA {
+                checked += 1;
+                let got = all[t as usize].eval((0..NV).map(|i| (i as u32, (a >> i) & 1 == 1)));
+                // independent walk
+                let mut cur = all[t as usize].clone();
+                let walked = loop {
+                    match cur.cofactors() {
+                        None => break cur.valid(),
+                        Some((hi, lo)) => {
+                            let var = cur.with_manager_shared(|m, e| m.level_to_var(m.get_node(e).unwrap_inner().level()));
+                            cur = if (a >> var) & 1 == 1 { hi } else { lo };
+                        }
+                    }
+                };
+                if got != walked {
+                    fail(kind, "eval (vs. node-by-node walk via cofactors/level_to_var)", vec![("f (as built)".into(), bits(t)), ("order".into(), format!("{:?}", p)), ("assignment".into(), format!("{:03b} (bit i = var i)", a))], format!("{}", walked), format!("{}", got));
+                }
+            }
+        }
+    }
+    println!("{{\"found\":false,\"checked\":{}}}", checked);
+}
+
 fn main() {
     let args: Vec<String> = std::env::args().collect();
     let (kind, group) = (args[1].as_str(), args[2].as_str());
     let _ = HashMap::<u32, u32>::new();
     match kind {
+        "bdd" if group == "eval" => run_eval("bdd", || {
+            let mref = oxidd::bdd::new_manager(1 << 16, 1 << 10, 1);
+            let vars: Vec<oxidd::bdd::BDDFunction> = mref.with_manager_exclusive(|m| m.add_vars(NV as u32).map(|v| oxidd::bdd::BDDFunction::var(m, v).unwrap()).collect());
+            (mref, vars) }),
+        "bcdd" if group == "eval" => run_eval("bcdd", || {
+            let mref = oxidd::bcdd::new_manager(1 << 16, 1 << 10, 1);
+            let vars: Vec<oxidd::bcdd::BCDDFunction> = mref.with_manager_exclusive(|m| m.add_vars(NV as u32).map(|v| oxidd::bcdd::BCDDFunction::var(m, v).unwrap()).collect());
+            (mref, vars) }),
         "bdd" if group == "reorder" => run_reorder("bdd", || {
             let mref = oxidd::bdd::new_manager(1 << 16, 1 << 10, 1);
             let vars: Vec<oxidd::bdd::BDDFunction> = mref.with_manager_exclusive(|m| m.add_vars(NV as u32).map(|v| oxidd::bdd::BDDFunction::var(m, v).unwrap()).collect());
